@@ -12,8 +12,13 @@ shrink_candidates = rc.shrink_candidates
 
 def rebuild(case):
     c = {"kind": case.get("kind", "corpus"), "py": case["py"]}
+    if case["py"].get("pipeline"):
+        return rc.pipeline_models(c)
     rc.attach_models(MODNAME, [c], "rebuild")
     return c
+
+
+prepare_compare = rc.prepare_pipeline
 
 
 def _cases(rng, n):
@@ -47,6 +52,12 @@ def gen(rng, tier):
     rc.attach_models(MODNAME, cases)
     for c in cases:
         yield c
+    # the whole-pipeline family: raw input -> both documents (command 850), no pre-pass;
+    # colour options in all four forms, border on/off
+    for k in range(300 if tier == "quick" else 1500):
+        forms = [("c3",), ("c6",), ("l",), ("f",), None, None][k % 6]
+        for c in rc.pipeline_cases(rng, 1, colour_forms=forms):
+            yield c
 
 
 def nontrivial(case, io):
@@ -57,7 +68,9 @@ def nontrivial(case, io):
 
 
 def extra_evidence(cases, impl_out, model_out):
-    return rc.histograms(cases, impl_out)
+    ev = rc.histograms(cases, impl_out)
+    ev.update(rc.pipeline_evidence())
+    return ev
 
 
 def search(rng, tier, mism):
@@ -89,3 +102,14 @@ LEVEL_NOTE = ("Trusted: Coq kernel; extraction re-checked on a slice by vm_compu
               "its value; uni2tex (applied to TikZ label texts) is property C19's subject and is applied by the harness when "
               "comparing. Margins are excluded as the property says. Modelled, not verified: labella/*.py.")
 TECHNIQUE = "Coq proof (structural induction over the label list / path steps; colour agreement from C20) + model/implementation correspondence on parsed SVG and TikZ"
+
+
+# ---- the whole-pipeline family (added with coq/Render/Pipeline.v) ----
+RULE += (" [pipeline:*: as the random family with colour options cycling through 3-digit, 6-digit, list and function forms, "
+         "but the model gets the RAW input only and produces BOTH documents (command 850); both are compared with the parsed "
+         "real exports.]")
+EXPLANATION += (" C09_pipeline_same_geometry is about the two documents of timeline_docs (coq/Render/Pipeline.v) computed from "
+                "one raw input; the pipeline:* family ties that composed model to both real exports end to end (ambiguity "
+                "classes as described in the C07 check, counted separately in the evidence).")
+LEVEL_TEXT += (" C09_pipeline_same_geometry: the same statement for the two documents the composed pipeline model computes "
+               "from one raw input, under a validity condition on the colour OPTIONS only.")
